@@ -17,7 +17,8 @@ ASSUMPTIONS = ["single thread (the thread component of the key is C16's subject)
 MENU = ["leaf:dd", "ins:ddirty", "ins:raise", "wrap:try", "leaf:sh", "ins:sync"]
 CATS = ["dedup-identity", "dedup-cross-key", "dedup-table-residue", "dedup-runcount", "resumed-uncomputed", "hang", "worker-died"]
 BODIES = ["ret", "y1", "y2", "y1raise", "selfsync"]
-LADDER = {"quick": [(4, 1, ["call"]), (3, 2, ["call"])],
+_ONE = {"menu": ["leaf:dd1"], "only_bodies": ["y2", "selfsync"]}  # two or three identical calls in larger programs
+LADDER = {"quick": [(4, 1, ["call"]), (3, 2, ["call"]), (5, 2, ["call"], _ONE), (4, 3, ["call"], _ONE)],
           "thorough": [(5, 1, ["call"]), (4, 2, ["call"], {"only_bodies": ["y2"]}), (3, 2, ["call"])]}
 SPEC = {"r1": False, "r2": False, "need": ["dd"]}
 
